@@ -115,7 +115,36 @@ def case_linear(H, filt, n, mdim, p, kpar=None):
         xk = xm + K @ (ten['y'] - (C @ xm + D @ ten['u'] + ten['c2']))
         Pk = (torch.eye(n, dtype=DT) - K @ C) @ Pm
         e = max((xo - xk).abs().max().item(), (Po - Pk).abs().max().item())
-        return e > 1e-7, '%s posterior differs from the Kalman posterior by %.3g on a random linear-Gaussian system (n=%d,p=%d)' % (filt, e, n, p)
+        if e > 1e-7:
+            return True, '%s posterior differs from the Kalman posterior by %.3g on a random linear-Gaussian system (n=%d,p=%d)' % (filt, e, n, p)
+        # the same system with covariances scaled down (the property ranges over 6 orders of magnitude) and in both dtypes, against the
+        # float64 Kalman posterior; errors relative to the posterior covariance's own size
+        worst, ww = 0.0, ''
+        for sc in (1.0, 1e-3, 1e-6):
+            Ps, Qs, Rs = P * sc, Q * sc, R * sc
+            Pm = A @ Ps @ A.T + Qs
+            S = C @ Pm @ C.T + Rs
+            K = Pm @ C.T @ torch.linalg.inv(S)
+            xk = xm + K @ (ten['y'] - (C @ xm + D @ ten['u'] + ten['c2']))
+            Pk = (torch.eye(n, dtype=DT) - K @ C) @ Pm
+            for dt_, tol_ in ((DT, 1e-8), (torch.float32, 2e-2)):
+                t32 = {k_: v_.to(dt_) for k_, v_ in ten.items()}
+
+                class LinD(pp.module.NLS):
+                    def state_transition(self, state, input, t=None):
+                        return pp.bmv(t32['A'], state) + pp.bmv(t32['B'], input) + t32['c1']
+
+                    def observation(self, state, input, t=None):
+                        return pp.bmv(t32['C'], state) + pp.bmv(t32['D'], input) + t32['c2']
+                Fd = {'EKF': pp.module.EKF, 'UKF': pp.module.UKF}[filt](LinD(), Qs.to(dt_), Rs.to(dt_))
+                try:
+                    xo_, Po_ = Fd(t32['x'], t32['y'], t32['u'], Ps.to(dt_), **({'k': kpar} if (filt == 'UKF' and kpar is not None) else {}))
+                except Exception:
+                    continue
+                er = max((Po_.double() - Pk).abs().max().item() / Pk.abs().max().item(), (xo_.double() - xk).abs().max().item() / (1 + xk.abs().max().item()))
+                if er / tol_ > worst:
+                    worst, ww = er / tol_, 'covariance scale %g, %s: relative deviation %.3g (allowed %.1g)' % (sc, str(dt_), er, tol_)
+        return worst > 1.0, '%s posterior vs Kalman posterior: %s' % (filt, ww)
 
     def replay_illcond(model_):
         # ill-conditioned innovation covariance (cond ~ 1e8, the property's documented range) with p=2 observations
